@@ -8,6 +8,7 @@ package main
 
 import (
 	"bytes"
+	"encoding/json"
 	"fmt"
 	"math/big"
 	mbits "math/bits"
@@ -16,6 +17,8 @@ import (
 	"reflect"
 	"sort"
 	"strings"
+	"sync"
+	"time"
 
 	tboc "github.com/tonkeeper/tongo/boc"
 	"github.com/tonkeeper/tongo/tlb"
@@ -311,7 +314,7 @@ func genInfo(r *mon.Rng, kind string, m *msgSpec) {
 		m.info = cat(bit(false), r.Bits(3), addrInt(r, true, true), addrInt(r, true, true), cc, grams(randBig(r, 6)), grams(randBig(r, 6)), u(r.Uint64(), 64), u(r.Uint64(), 32))
 		m.infoRefs = ccRefs
 	case "ext-in":
-		m.dest = addrInt(r, false, false)
+		m.dest = addrInt(r, false, true) // addr_std, now and then addr_var (never with anycast: tongo documents that it strips it)
 		m.info = cat([]bool{true, false}, addrExt(r), m.dest, grams(randBig(r, 8)))
 	case "ext-out":
 		m.info = cat([]bool{true, true}, addrInt(r, true, true), addrExt(r), u(r.Uint64(), 64), u(r.Uint64(), 32))
@@ -774,15 +777,62 @@ func compareMessage(m *tlb.Message, src *cell.Cell, spec *msgSpec, how, where st
 		R.Count("normalised_hash_not_judged_for_level>0_messages", 1)
 		return
 	}
+	// the normalised hash depends on destination and body, not on how far somebody has read the body:
+	// move the read cursors of the decoded body in place and ask again
+	{
+		var n3 tlb.Bits256
+		moved := false
+		if pn := mon.Guard(func() {
+			bc := (*tboc.Cell)(&m.Body.Value)
+			if k := bc.BitsAvailableForRead(); k > 0 {
+				if k > 9 {
+					k = 9
+				}
+				_, _ = bc.ReadUint(k)
+				moved = true
+			}
+			if bc.RefsAvailableForRead() > 0 {
+				_, _ = bc.NextRef()
+				moved = true
+			}
+			n3 = m.Hash(true)
+			bc.ResetCounters()
+		}); pn != nil {
+			R.Violation("panic@"+pn.Site+"/Message.Hash(true)/after-reading-the-body", witnessOf(wit, "panic", pn.Value, "shape", cls))
+			return
+		}
+		if moved {
+			R.Eval("")
+			R.Count("normalised_hashes_asked_again_after_reading_the_body_in_place", 1)
+			if n3 != n1 {
+				R.Violation("normalised-hash-changed-by@reading-the-body/"+map[bool]string{true: "body-ref", false: "body-inline"}[spec.bodyRef],
+					witnessOf(wit, "before", h32(n1), "after", h32(n3), "shape", cls, "body_bits", len(spec.body.Bits), "body_refs", len(spec.body.Refs)))
+			}
+		}
+	}
 	canon := spec.canonical().Hash()
 	R.Eval("n/" + how + "/" + cls + "/" + string(canon[:8]))
 	R.Count("normalised_hashes_compared_with_canonical_form", 1)
 	if [32]byte(n1) != canon {
 		bodyKind := "ordinary-body"
 		if spec.body.Exotic {
-			bodyKind = "exotic-body"
+			bodyKind = "exotic-body" // a library cell
+			if len(spec.body.Bits) >= 8 {
+				switch rbits.ToUint(spec.body.Bits[:8]) {
+				case 1:
+					bodyKind = "pruned-branch-body"
+				case 3:
+					bodyKind = "merkle-proof-body"
+				case 4:
+					bodyKind = "merkle-update-body"
+				}
+			}
 		}
-		R.Violation("normalised-hash-mismatch@Message.Hash(true)/"+initNames[spec.initMode]+"/"+map[bool]string{true: "body-ref", false: "body-inline"}[spec.bodyRef]+"/"+bodyKind+"/"+how,
+		destKind := ""
+		if len(spec.dest) > 2 && spec.dest[0] && spec.dest[1] {
+			destKind = "/addr_var-destination"
+		}
+		R.Violation("normalised-hash-mismatch@Message.Hash(true)/"+initNames[spec.initMode]+"/"+map[bool]string{true: "body-ref", false: "body-inline"}[spec.bodyRef]+"/"+bodyKind+destKind+"/"+how,
 			witnessOf(wit, "got", h32(n1), "want", h32(canon), "shape", cls, "message_bits", rbits.String(src.Bits), "body_bits", len(spec.body.Bits), "body_refs", len(spec.body.Refs)))
 	}
 }
@@ -850,9 +900,14 @@ func checkSourceBoc(t *tlb.Transaction, want cell.Hash, how string, wit map[stri
 	}); pn != nil || err != nil || len(cs) != 1 || !bytes.Equal(hh, want[:]) {
 		R.Violation("hash-mismatch@Transaction.SourceBoc(tongo reader)/"+how, witnessOf(wit, "err", fmt.Sprint(err, pn), "got", mon.Hex(hh), "want", h32(want)))
 	}
-	// a second call gives the same bytes
-	if b2, err := t.SourceBoc(); err != nil || !bytes.Equal(b, b2) {
-		R.Violation("unstable@Transaction.SourceBoc/"+how, wit)
+	// a second call: again a BOC of the same cell (identical bytes are the common case, not a requirement)
+	if b2, err := t.SourceBoc(); err != nil {
+		R.Violation("unstable@Transaction.SourceBoc/"+how, witnessOf(wit, "err", err.Error()))
+	} else if !bytes.Equal(b, b2) {
+		R.Count("source_boc_second_call_gave_other_bytes", 1)
+		if r2, _, _, rerr := rboc.Read(b2); rerr != nil || len(r2) != 1 || r2[0].Hash() != want {
+			R.Violation("unstable@Transaction.SourceBoc/"+how, witnessOf(wit, "err", fmt.Sprint(rerr)))
+		}
 	}
 }
 
@@ -1071,6 +1126,402 @@ func sectionShapes() {
 	}
 }
 
+// ---------------------------------------------------------------- one destination decoded over and over, kept copies
+
+// sectionReuse: the usual Go loop `var tx T; for ... { Unmarshal(cell, &tx); list = append(list, tx) }`.
+// One variable receives record after record, value copies of it are kept. Every kept copy must go on
+// reporting the hash of the cell IT was decoded from (Hash, normalised hash, SourceBoc), and the
+// variable must report the hash of the cell decoded last. Transactions are decoded at the root of
+// their cell here (the way a list of transactions fetched from a node is decoded).
+func sectionReuse() {
+	groups := R.N(120, 3000)
+	for g := 0; g < groups; g++ {
+		rng := R.Rng("reuse-tx", g)
+		how := []string{"plain", "hasher", "hasher(one decoder for all)"}[g%3]
+		viaBoc := g%2 == 0
+		askBocAtOnce := g%4 < 2 // SourceBoc also asked right after each decode, or only of the kept copies
+		n := rng.Range(2, 5)
+		pick := func() *cell.Cell {
+			_, c := anyMessage(rng)
+			if c == nil {
+				return cell.New(nil, false)
+			}
+			return c
+		}
+		var specs []*txSpec
+		var tx tlb.Transaction // the one destination
+		var kept []tlb.Transaction
+		shared := tlb.NewDecoder()
+		ok := true
+		for i := 0; i < n && ok; i++ {
+			ts := genTx(rng, pick)
+			t, err := deliver(ts.c, viaBoc, rng)
+			if err != nil {
+				R.HarnessError("deliver: %v", err)
+				return
+			}
+			pn := mon.Guard(func() {
+				switch how {
+				case "plain":
+					err = tlb.Unmarshal(t, &tx)
+				case "hasher":
+					err = tlb.NewDecoder().Unmarshal(t, &tx)
+				default:
+					err = shared.Unmarshal(t, &tx)
+				}
+			})
+			wit := map[string]any{"group": g, "decoder": how, "record": i, "delivered_via_boc": viaBoc}
+			if pn != nil {
+				R.Violation("panic@"+pn.Site+"/decode-transaction/"+how, witnessOf(wit, "panic", pn.Value))
+				ok = false
+				break
+			}
+			if err != nil {
+				R.Inconclusive("tongo rejects a reference-built transaction: " + mon.Trunc(err.Error(), 80))
+				ok = false
+				break
+			}
+			specs = append(specs, ts)
+			if askBocAtOnce {
+				compareTx(&tx, ts, how, "root/decoded-over-the-previous-record", wit)
+			} else {
+				R.Eval("t/" + how + "/root/decoded-over/" + string(h8(ts.c)))
+				if got := tx.Hash(); [32]byte(got) != ts.c.Hash() {
+					R.Violation("hash-mismatch@Transaction.Hash/"+how+"/root/decoded-over-the-previous-record", witnessOf(wit, "got", h32(got), "want", h32(ts.c.Hash())))
+				}
+			}
+			kept = append(kept, tx) // a value copy
+		}
+		if !ok {
+			continue
+		}
+		// now the copies, in another order than they were made
+		for _, i := range rng.Perm(len(kept)) {
+			wit := map[string]any{"group": g, "decoder": how, "record": i, "records_decoded_into_the_variable": len(kept), "source_boc_also_asked_right_after_decoding": askBocAtOnce}
+			compareTx(&kept[i], specs[i], how, "kept-copy/variable-decoded-over-since", wit)
+			R.Count("kept_transaction_copies_checked", 1)
+		}
+	}
+
+	// messages: the normalised hash is computed on demand from the value, so a value that has been
+	// decoded over (or a kept copy of an earlier content) must give the hash of its own content
+	for g := 0; g < R.N(150, 4000); g++ {
+		rng := R.Rng("reuse-msg", g)
+		how := []string{"plain", "hasher", "hasher(one decoder for all)"}[g%3]
+		n := rng.Range(2, 5)
+		var m tlb.Message // the one destination
+		type rec struct {
+			spec *msgSpec
+			c    *cell.Cell
+		}
+		var recs []rec
+		var kept []tlb.Message
+		shared := tlb.NewDecoder()
+		ok := true
+		for i := 0; i < n && ok; i++ {
+			kind := "ext-in"
+			if rng.Chance(1, 4) {
+				kind = mon.Pick(rng, kinds)
+			}
+			spec, c := genMessage(rng, kind, rng.Intn(3), rng.Bool())
+			if c == nil {
+				return
+			}
+			t, err := deliver(c, g%2 == 0, rng)
+			if err != nil {
+				R.HarnessError("deliver: %v", err)
+				return
+			}
+			pn := mon.Guard(func() {
+				switch how {
+				case "plain":
+					err = tlb.Unmarshal(t, &m)
+				case "hasher":
+					err = tlb.NewDecoder().Unmarshal(t, &m)
+				default:
+					err = shared.Unmarshal(t, &m)
+				}
+			})
+			if pn != nil || err != nil {
+				R.Inconclusive("tongo rejects a reference-built message")
+				ok = false
+				break
+			}
+			recs = append(recs, rec{spec, c})
+			compareMessage(&m, c, spec, how, "root/decoded-over-the-previous-record", map[string]any{"group": g, "record": i})
+			kept = append(kept, m)
+		}
+		if !ok {
+			continue
+		}
+		for _, i := range rng.Perm(len(kept)) {
+			compareMessage(&kept[i], recs[i].c, recs[i].spec, how, "kept-copy/variable-decoded-over-since", map[string]any{"group": g, "record": i, "records_decoded_into_the_variable": len(kept)})
+			R.Count("kept_message_copies_checked", 1)
+		}
+	}
+}
+
+func h8(c *cell.Cell) []byte { h := c.Hash(); return h[:8] }
+
+// ---------------------------------------------------------------- transactions: re-decoding, level > 0, exotic cells below
+
+type txPair struct {
+	A tlb.Transaction `tlb:"^"`
+	B tlb.Transaction `tlb:"^"`
+}
+
+func sectionTransactions() {
+	// (1) the very same cell decoded again and again, at the root, through one decoder and without
+	for k := 0; k < R.N(80, 2500); k++ {
+		rng := R.Rng("tx-redecode", k)
+		ts := genTx(rng, func() *cell.Cell {
+			_, c := anyMessage(rng)
+			if c == nil {
+				return cell.New(nil, false)
+			}
+			return c
+		})
+		t, err := deliver(ts.c, k%2 == 0, rng)
+		if err != nil {
+			R.HarnessError("deliver: %v", err)
+			return
+		}
+		dec := tlb.NewDecoder()
+		for round := 0; round < 3; round++ {
+			var tx tlb.Transaction
+			how := "plain"
+			pn := mon.Guard(func() {
+				if (round+k)%2 == 0 {
+					err = tlb.Unmarshal(t, &tx)
+				} else {
+					how = "hasher"
+					err = dec.Unmarshal(t, &tx)
+				}
+			})
+			if pn != nil || err != nil {
+				if round == 0 {
+					R.Inconclusive("tongo rejects a reference-built transaction")
+				} else {
+					R.Violation("error@re-decoding-the-same-cell/Transaction/"+how, map[string]any{"round": round, "err": fmt.Sprint(err, pn)})
+				}
+				break
+			}
+			compareTx(&tx, ts, how, fmt.Sprintf("root/decoded-again(%d)", round), map[string]any{"case": k, "round": round})
+		}
+	}
+	// (2) a transaction as it is found in a Merkle proof: below it a pruned branch (level 1), a library
+	// cell, a Merkle proof cell. Referenced twice from one tree, so the second decode meets the cell in
+	// the hasher's cache; SourceBoc must carry the exotic cells along.
+	for k := 0; k < R.N(60, 1500); k++ {
+		rng := R.Rng("tx-exotic", k)
+		var ph, lh cell.Hash
+		copy(ph[:], rng.Bytes(32))
+		copy(lh[:], rng.Bytes(32))
+		below := []struct {
+			name string
+			c    *cell.Cell
+		}{
+			{"pruned-branch", cell.NewPrunedRaw(1, []cell.Hash{ph}, []int{rng.Intn(500)})},
+			{"library-cell", cell.NewLibrary(lh)},
+			{"merkle-proof-cell", cell.NewMerkleProof(gen.Leaf(rng, true))},
+		}[k%3]
+		mkMsg := func() *cell.Cell {
+			sp := &msgSpec{initMode: 0, bodyRef: true, body: cell.New(rng.Bits(rng.Intn(200)), false, below.c)}
+			genInfo(rng, mon.Pick(rng, kinds), sp)
+			c, err := sp.cell()
+			if err != nil {
+				return cell.New(nil, false)
+			}
+			return c
+		}
+		first := true
+		ts := genTx(rng, func() *cell.Cell {
+			if first || rng.Bool() {
+				first = false
+				return mkMsg()
+			}
+			_, c := anyMessage(rng)
+			if c == nil {
+				return cell.New(nil, false)
+			}
+			return c
+		})
+		root := cell.New(nil, false, ts.c, ts.c)
+		if root.Err() != nil {
+			R.HarnessError("transaction generator: %v", root.Err())
+			return
+		}
+		for _, how := range []string{"plain", "hasher"} {
+			t, err := deliver(root, true, rng) // cells of level > 0 carry their mask only when parsed
+			if err != nil {
+				R.HarnessError("deliver: %v", err)
+				return
+			}
+			var v txPair
+			pn := mon.Guard(func() {
+				if how == "plain" {
+					err = tlb.Unmarshal(t, &v)
+				} else {
+					err = tlb.NewDecoder().Unmarshal(t, &v)
+				}
+			})
+			if pn != nil {
+				R.Violation("panic@"+pn.Site+"/decode-transaction/"+below.name+"-below", map[string]any{"panic": pn.Value})
+				continue
+			}
+			if err != nil {
+				R.Inconclusive("tongo rejects a transaction with a " + below.name + " below it")
+				continue
+			}
+			R.Seen("transactions_with_exotic_cells_below", fmt.Sprintf("%s (level mask %d)", below.name, ts.c.Mask()))
+			compareTx(&v.A, ts, how, "^/"+below.name+"-below/first-decode", map[string]any{"case": k})
+			compareTx(&v.B, ts, how, "^/"+below.name+"-below/second-decode-of-the-same-cell", map[string]any{"case": k})
+		}
+	}
+}
+
+// ---------------------------------------------------------------- several goroutines decoding at once
+
+// Distinct cells, distinct destinations, distinct decoders: nothing is shared by the callers, so
+// the reported hashes must not depend on how many goroutines decode at the same time. Runs in a
+// child process: if shared state inside the library is hit by two goroutines the Go runtime may
+// end the process ("concurrent map writes"), which the parent then reports.
+type concJob struct {
+	N, G int
+}
+
+type concCase struct {
+	t      *tboc.Cell
+	isTx   bool
+	want   cell.Hash
+	norm   *cell.Hash // external-in of level 0: hash of the canonical form
+	hasher bool
+	shape  string
+}
+
+func concurrentWorker(w *mon.Worker) {
+	var j concJob
+	if err := json.Unmarshal(w.Job, &j); err != nil || j.N <= 0 || j.G <= 0 {
+		w.HarnessError("concurrent worker: bad job")
+		return
+	}
+	// everything that touches the reference model or the generators happens here, on one goroutine
+	var cases []concCase
+	if pn := mon.Guard(func() {
+		for k := 0; k < j.N; k++ {
+			rng := w.Rng("concurrent", k)
+			var cc concCase
+			cc.hasher = k%2 == 1
+			var root *cell.Cell
+			if k%5 == 4 {
+				ts := genTx(rng, func() *cell.Cell {
+					_, c := anyMessage(rng)
+					return c
+				})
+				root, cc.isTx, cc.want, cc.shape = ts.c, true, ts.c.Hash(), "transaction"
+			} else {
+				spec, c := anyMessage(rng)
+				root, cc.want, cc.shape = c, c.Hash(), spec.class()
+				if spec.kind == "ext-in" && c.Mask() == 0 {
+					h := spec.canonical().Hash()
+					cc.norm = &h
+				}
+			}
+			t, err := deliver(root, k%3 != 0, rng)
+			if err != nil {
+				panic(err)
+			}
+			cc.t = t
+			cases = append(cases, cc)
+		}
+	}); pn != nil {
+		w.HarnessError("concurrent worker: generator: " + pn.Value)
+		return
+	}
+	w.Begin("concurrent-decoding", nil)
+	var wg sync.WaitGroup
+	for g := 0; g < j.G; g++ {
+		wg.Add(1)
+		go func(g int) {
+			defer wg.Done()
+			for k := g; k < len(cases); k += j.G {
+				cc := &cases[k]
+				how := "plain"
+				if cc.hasher {
+					how = "hasher"
+				}
+				var got, norm tlb.Bits256
+				var b []byte
+				var err error
+				pn := mon.Guard(func() {
+					dec := tlb.NewDecoder()
+					if cc.isTx {
+						var tx tlb.Transaction
+						if cc.hasher {
+							err = dec.Unmarshal(cc.t, &tx)
+						} else {
+							err = tlb.Unmarshal(cc.t, &tx)
+						}
+						if err == nil {
+							got = tx.Hash()
+							b, err = tx.SourceBoc()
+						}
+						return
+					}
+					var m tlb.Message
+					if cc.hasher {
+						err = dec.Unmarshal(cc.t, &m)
+					} else {
+						err = tlb.Unmarshal(cc.t, &m)
+					}
+					if err == nil {
+						got, norm = m.Hash(false), m.Hash(true)
+					}
+				})
+				if pn != nil {
+					w.Violation("panic@"+pn.Site+"/concurrent-decoding/"+how, map[string]any{"panic": pn.Value, "goroutines": j.G, "shape": cc.shape})
+					continue
+				}
+				if err != nil {
+					w.Inconclusive("tongo rejects a reference-built record (concurrent section)")
+					continue
+				}
+				w.Eval("conc/" + how + "/" + string(cc.want[:8]))
+				w.Count("records_decoded_while_other_goroutines_decode", 1)
+				if [32]byte(got) != cc.want {
+					w.Violation("hash-mismatch@concurrent-decoding/"+how, map[string]any{"got": h32(got), "want": h32(cc.want), "goroutines": j.G, "shape": cc.shape})
+					continue
+				}
+				if cc.norm != nil && [32]byte(norm) != *cc.norm {
+					w.Violation("normalised-hash-mismatch@concurrent-decoding/"+how, map[string]any{"got": h32(norm), "want": h32(*cc.norm), "goroutines": j.G, "shape": cc.shape})
+					continue
+				}
+				if cc.isTx {
+					if cs, err := tboc.DeserializeBoc(b); err != nil || len(cs) != 1 {
+						w.Violation("invalid-boc@Transaction.SourceBoc/concurrent-decoding/"+how, map[string]any{"err": fmt.Sprint(err), "goroutines": j.G})
+					} else if hh, err := cs[0].Hash(); err != nil || !bytes.Equal(hh, cc.want[:]) {
+						// tongo's own reader only (the reference model is not used from several goroutines); its
+						// agreement with the reference reader is established in the sequential sections
+						w.Violation("hash-mismatch@Transaction.SourceBoc/concurrent-decoding/"+how, map[string]any{"got": mon.Hex(hh), "want": h32(cc.want), "goroutines": j.G})
+					}
+				}
+			}
+		}(g)
+	}
+	wg.Wait()
+	w.End()
+}
+
+func sectionConcurrent() {
+	R.RunJobs([]mon.Job{{Name: "concurrent", Input: concJob{N: R.N(4000, 60000), G: 8}}}, mon.ChildOpts{Parallel: 1, Timeout: 5 * time.Minute}, func(c mon.Crash) {
+		if c.TimedOut {
+			R.Inconclusive("concurrent section: child watchdog fired")
+			return
+		}
+		R.Violation("fatal@"+mon.FatalClass(c.Stderr)+"/concurrent-decoding", map[string]any{"exit": c.ExitInfo, "stderr": mon.Trunc(c.Stderr, 3000), "goroutines": 8})
+	})
+}
+
 // ---------------------------------------------------------------- equivalence classes of the normalised hash
 
 func normHash(c *cell.Cell, how string, viaBoc, wrapped bool, r *mon.Rng, wit map[string]any) (tlb.Bits256, bool) {
@@ -1110,13 +1561,55 @@ func sectionClasses() {
 			destWc = int8(rng.Intn(256))
 		}
 		destHash := rand32(rng)
+		// the form of the destination: addr_std (most), addr_var$11 (a valid MsgAddressInt that the canonical
+		// form keeps as it is), addr_std with anycast (tongo documents that it strips the anycast: only the
+		// equality classes are judged for it, not the value)
+		destForm := "addr_std"
+		switch i % 7 {
+		case 3:
+			destForm = "addr_var"
+		case 5:
+			destForm = "addr_std+anycast"
+		}
+		varWc := int32(uint32(rng.Uint64()))
+		if rng.Bool() {
+			varWc = int32(destWc)
+		}
+		varAddr := rng.Bits(mon.Pick(rng, []int{1, 64, 255, 256, 300}))
+		acDepth := rng.Range(1, 30)
+		acPfx := uint32(rng.Uint64()) & (1<<uint(acDepth) - 1)
+		// addr_var$11 anycast:(Maybe Anycast) addr_len:(## 9) workchain_id:int32 address:(bits addr_len) = MsgAddressInt;
+		varBits := func(wc int32, a []bool) []bool {
+			return cat([]bool{true, true, false}, u(uint64(len(a)), 9), rbits.IntBits(int64(wc), 32), a)
+		}
+		// dest(dWc, flipBit): the destination with the workchain moved by dWc and address bit flipBit inverted (-1: none)
+		dest := func(dWc int, flipBit int) []bool {
+			switch destForm {
+			case "addr_var":
+				a := append([]bool(nil), varAddr...)
+				if flipBit >= 0 {
+					a[flipBit%len(a)] = !a[flipBit%len(a)]
+				}
+				return varBits(varWc+int32(dWc), a)
+			}
+			h := destHash
+			if flipBit >= 0 {
+				h[flipBit/8] ^= 0x80 >> uint(flipBit%8)
+			}
+			if destForm == "addr_std+anycast" {
+				return addr.AddrStdBits(acDepth, acPfx, destWc+int8(dWc), h)
+			}
+			return addr.AddrStdBits(0, 0, destWc+int8(dWc), h)
+		}
+		judgeValue := destForm != "addr_std+anycast"
 		body := genBody(rng, 440, 1)
-		mk := func(src []bool, dwc int8, dh [32]byte, fee *big.Int, initMode int, ib []bool, ir []*cell.Cell, bodyRef bool, b *cell.Cell) *msgSpec {
+		mk := func(src []bool, d []bool, fee *big.Int, initMode int, ib []bool, ir []*cell.Cell, bodyRef bool, b *cell.Cell) *msgSpec {
 			s := &msgSpec{kind: "ext-in", initMode: initMode, initBits: ib, initRefs: ir, bodyRef: bodyRef, body: b}
-			s.dest = addr.AddrStdBits(0, 0, dwc, dh)
+			s.dest = d
 			s.info = cat([]bool{true, false}, src, s.dest, grams(fee))
 			return s
 		}
+		dest0 := dest(0, -1)
 		src0 := addrExt(rng)
 		fee0 := randBig(rng, 8)
 		init0 := rng.Intn(3)
@@ -1126,21 +1619,22 @@ func sectionClasses() {
 			ib0, ir0 = genStateInit(rng, 2)
 		}
 		bodyRef0 := rng.Bool()
-		base := mk(src0, destWc, destHash, fee0, init0, ib0, ir0, bodyRef0, body)
+		base := mk(src0, dest0, fee0, init0, ib0, ir0, bodyRef0, body)
 		baseCell, err := base.cell()
 		if err != nil {
 			R.HarnessError("class generator: %v", err)
 			return
 		}
 		how := []string{"plain", "hasher"}[i%2]
-		wit := map[string]any{"class": i, "decoder": how, "base_shape": base.class(), "base_bits": rbits.String(baseCell.Bits)}
+		wit := map[string]any{"class": i, "decoder": how, "base_shape": base.class(), "base_bits": rbits.String(baseCell.Bits), "destination_form": destForm}
 		h0, ok := normHash(baseCell, how, i%3 != 0, i%4 >= 2, rng, wit)
 		if !ok {
 			continue
 		}
 		canon := base.canonical().Hash()
 		R.Eval("class-base/" + string(canon[:8]))
-		if [32]byte(h0) != canon {
+		R.Seen("class_destination_forms", destForm)
+		if judgeValue && [32]byte(h0) != canon {
 			R.Violation("normalised-hash-mismatch@Message.Hash(true)/class-base/"+initNames[init0], witnessOf(wit, "got", h32(h0), "want", h32(canon)))
 			continue
 		}
@@ -1155,7 +1649,7 @@ func sectionClasses() {
 		for rbits.Equal(src1, src0) {
 			src1 = addrExt(rng)
 		}
-		vs = append(vs, variant{"source-address", true, mk(src1, destWc, destHash, fee0, init0, ib0, ir0, bodyRef0, body)})
+		vs = append(vs, variant{"source-address", true, mk(src1, dest0, fee0, init0, ib0, ir0, bodyRef0, body)})
 		fee1 := new(big.Int).Add(fee0, big.NewInt(int64(rng.Range(1, 1000))))
 		if rng.Bool() {
 			fee1 = randBig(rng, 8)
@@ -1163,41 +1657,45 @@ func sectionClasses() {
 				fee1.Add(fee1, big.NewInt(1))
 			}
 		}
-		vs = append(vs, variant{"import-fee", true, mk(src0, destWc, destHash, fee1, init0, ib0, ir0, bodyRef0, body)})
+		vs = append(vs, variant{"import-fee", true, mk(src0, dest0, fee1, init0, ib0, ir0, bodyRef0, body)})
 		for im := 0; im < 3; im++ {
 			switch {
 			case im == init0 && init0 != 0: // same placement, other content
 				ib, ir := genStateInit(rng, 2)
-				vs = append(vs, variant{"state-init-content(" + initNames[im] + ")", true, mk(src0, destWc, destHash, fee0, im, ib, ir, bodyRef0, body)})
+				vs = append(vs, variant{"state-init-content(" + initNames[im] + ")", true, mk(src0, dest0, fee0, im, ib, ir, bodyRef0, body)})
 			case im == init0:
 			case im == 0:
-				vs = append(vs, variant{"state-init-removed", true, mk(src0, destWc, destHash, fee0, 0, nil, nil, bodyRef0, body)})
+				vs = append(vs, variant{"state-init-removed", true, mk(src0, dest0, fee0, 0, nil, nil, bodyRef0, body)})
 			case init0 == 0:
 				ib, ir := genStateInit(rng, 2)
-				vs = append(vs, variant{"state-init-added(" + initNames[im] + ")", true, mk(src0, destWc, destHash, fee0, im, ib, ir, bodyRef0, body)})
+				vs = append(vs, variant{"state-init-added(" + initNames[im] + ")", true, mk(src0, dest0, fee0, im, ib, ir, bodyRef0, body)})
 			default: // same content, other placement
-				vs = append(vs, variant{"state-init-placement(" + initNames[im] + ")", true, mk(src0, destWc, destHash, fee0, im, ib0, ir0, bodyRef0, body)})
+				vs = append(vs, variant{"state-init-placement(" + initNames[im] + ")", true, mk(src0, dest0, fee0, im, ib0, ir0, bodyRef0, body)})
 			}
 		}
-		vs = append(vs, variant{"body-placement", true, mk(src0, destWc, destHash, fee0, init0, ib0, ir0, !bodyRef0, body)})
+		vs = append(vs, variant{"body-placement", true, mk(src0, dest0, fee0, init0, ib0, ir0, !bodyRef0, body)})
 		// parts that must matter, one at a time
-		vs = append(vs, variant{"destination-workchain", false, mk(src0, destWc+1, destHash, fee0, init0, ib0, ir0, bodyRef0, body)})
-		dh := destHash
-		bi := rng.Intn(256)
-		dh[bi/8] ^= 0x80 >> uint(bi%8)
-		vs = append(vs, variant{"destination-address-bit", false, mk(src0, destWc, dh, fee0, init0, ib0, ir0, bodyRef0, body)})
+		vs = append(vs, variant{"destination-workchain", false, mk(src0, dest(1, -1), fee0, init0, ib0, ir0, bodyRef0, body)})
+		vs = append(vs, variant{"destination-address-bit", false, mk(src0, dest(0, rng.Intn(256)), fee0, init0, ib0, ir0, bodyRef0, body)})
+		switch destForm {
+		case "addr_std":
+			// the same workchain and 256 address bits as addr_var: another MsgAddressInt, another canonical cell
+			vs = append(vs, variant{"destination-form(addr_std->addr_var)", false, mk(src0, varBits(int32(destWc), rbits.BytesBits(destHash[:])), fee0, init0, ib0, ir0, bodyRef0, body)})
+		case "addr_var":
+			vs = append(vs, variant{"destination-address-length", false, mk(src0, varBits(varWc, append(append([]bool(nil), varAddr...), false)), fee0, init0, ib0, ir0, bodyRef0, body)})
+		}
 		if len(body.Bits) > 0 {
 			bb := append([]bool(nil), body.Bits...)
 			k := rng.Intn(len(bb))
 			bb[k] = !bb[k]
-			vs = append(vs, variant{"body-bit", false, mk(src0, destWc, destHash, fee0, init0, ib0, ir0, bodyRef0, cell.New(bb, false, body.Refs...))})
+			vs = append(vs, variant{"body-bit", false, mk(src0, dest0, fee0, init0, ib0, ir0, bodyRef0, cell.New(bb, false, body.Refs...))})
 		}
-		vs = append(vs, variant{"body-longer-by-a-zero-bit", false, mk(src0, destWc, destHash, fee0, init0, ib0, ir0, bodyRef0, cell.New(append(append([]bool(nil), body.Bits...), false), false, body.Refs...))})
+		vs = append(vs, variant{"body-longer-by-a-zero-bit", false, mk(src0, dest0, fee0, init0, ib0, ir0, bodyRef0, cell.New(append(append([]bool(nil), body.Bits...), false), false, body.Refs...))})
 		if len(body.Refs) > 0 {
-			vs = append(vs, variant{"body-reference", false, mk(src0, destWc, destHash, fee0, init0, ib0, ir0, bodyRef0, cell.New(body.Bits, false, gen.Leaf(rng, true)))})
-			vs = append(vs, variant{"body-reference-dropped", false, mk(src0, destWc, destHash, fee0, init0, ib0, ir0, bodyRef0, cell.New(body.Bits, false))})
+			vs = append(vs, variant{"body-reference", false, mk(src0, dest0, fee0, init0, ib0, ir0, bodyRef0, cell.New(body.Bits, false, gen.Leaf(rng, true)))})
+			vs = append(vs, variant{"body-reference-dropped", false, mk(src0, dest0, fee0, init0, ib0, ir0, bodyRef0, cell.New(body.Bits, false))})
 		} else {
-			vs = append(vs, variant{"body-reference-added", false, mk(src0, destWc, destHash, fee0, init0, ib0, ir0, bodyRef0, cell.New(body.Bits, false, gen.Leaf(rng, true)))})
+			vs = append(vs, variant{"body-reference-added", false, mk(src0, dest0, fee0, init0, ib0, ir0, bodyRef0, cell.New(body.Bits, false, gen.Leaf(rng, true)))})
 		}
 		for _, v := range vs {
 			vc, err := v.s.cell()
@@ -1229,7 +1727,7 @@ func sectionClasses() {
 				R.Count("pairs_expected_different", 1)
 				if h1 == h0 {
 					R.Violation("normalised-hash-blind-to@"+v.what, witnessOf(w, "both", h32(h0)))
-				} else if [32]byte(h1) != vcanon {
+				} else if judgeValue && [32]byte(h1) != vcanon {
 					R.Violation("normalised-hash-mismatch@Message.Hash(true)/variant/"+v.what, witnessOf(w, "got", h32(h1), "want", h32(vcanon)))
 				}
 			}
@@ -1279,6 +1777,44 @@ func sectionConstructed() {
 		}
 		if [32]byte(got) != want {
 			R.Violation("normalised-hash-mismatch@Message.Hash(true)/constructed", map[string]any{"got": h32(got), "want": h32(want), "body_bits": len(bodyRef.Bits), "body_refs": len(bodyRef.Refs)})
+			continue
+		}
+		// the same value is given another body, then another destination, and asked again each time:
+		// the normalised hash follows the value as it is now
+		body2 := genBody(rng, 1023, 4)
+		for body2.Hash() == bodyRef.Hash() {
+			body2 = genBody(rng, 1023, 4)
+		}
+		tb2, err := bridge.ToTongoBuilt(body2)
+		if err != nil {
+			R.HarnessError("build body: %v", err)
+			return
+		}
+		h2 := rand32(rng)
+		wc2 := int8(rng.Intn(256))
+		want2 := (&msgSpec{dest: addr.AddrStdBits(0, 0, wc, h), body: body2}).canonical().Hash()
+		want3 := (&msgSpec{dest: addr.AddrStdBits(0, 0, wc2, h2), body: body2}).canonical().Hash()
+		var got2, got3 tlb.Bits256
+		pn = mon.Guard(func() {
+			msg, err := ton.CreateExternalMessage(ton.AccountID{Workchain: int32(wc), Address: h}, tb, init, tlb.VarUInteger16(*fee))
+			if err != nil {
+				panic(err)
+			}
+			_ = msg.Hash(true)
+			msg.Body.Value = tlb.Any(*tb2)
+			got2 = msg.Hash(true)
+			msg.Info.ExtInMsgInfo.Dest = (&ton.AccountID{Workchain: int32(wc2), Address: h2}).ToMsgAddress()
+			got3 = msg.Hash(true)
+		})
+		R.Eval("constructed-changed/" + string(want3[:8]))
+		if pn != nil {
+			R.Violation("panic@"+pn.Site+"/CreateExternalMessage.Hash(true)", map[string]any{"panic": pn.Value})
+			continue
+		}
+		if [32]byte(got2) != want2 {
+			R.Violation("normalised-hash-mismatch@Message.Hash(true)/constructed/asked-again-after-the-body-was-replaced", map[string]any{"got": h32(got2), "want": h32(want2), "hash_before_the_change": h32(got)})
+		} else if [32]byte(got3) != want3 {
+			R.Violation("normalised-hash-mismatch@Message.Hash(true)/constructed/asked-again-after-the-destination-was-replaced", map[string]any{"got": h32(got3), "want": h32(want3), "hash_before_the_change": h32(got2)})
 		}
 	}
 }
@@ -1288,20 +1824,36 @@ func sectionRareExtIn() {
 	n := R.N(60, 1500)
 	for i := 0; i < n; i++ {
 		rng := R.Rng("rare", i)
-		// (a) the body reference is an exotic (library) cell
+		// (a) the body reference is an exotic cell of level 0: a library cell, a Merkle proof or a
+		// Merkle update over ordinary cells (contracts do take proofs as message bodies)
 		var lh cell.Hash
 		copy(lh[:], rng.Bytes(32))
-		spec := &msgSpec{initMode: 0, bodyRef: true, body: cell.NewLibrary(lh)}
-		genInfo(rng, "ext-in", spec)
-		if c, err := spec.cell(); err == nil {
-			how := []string{"plain", "hasher"}[i%2]
-			m, derr, pn := decodeMessage(c, how, true, i%4 >= 2, rng)
-			if pn != nil {
-				R.Violation("panic@"+pn.Site+"/decode-message/exotic-body", map[string]any{"panic": pn.Value})
-			} else if derr != nil {
-				R.Inconclusive("tongo rejects an external message whose body reference is a library cell")
-			} else {
-				compareMessage(m, c, spec, how, "exotic-body", map[string]any{"case": i, "body": "library cell"})
+		exoticBodies := []struct {
+			name string
+			c    *cell.Cell
+		}{
+			{"library cell", cell.NewLibrary(lh)},
+			{"Merkle proof cell", cell.NewMerkleProof(gen.RandomDag(rng, gen.DagOpts{Nodes: rng.Range(1, 4), SmallBits: true}))},
+			{"Merkle update cell", cell.NewMerkleUpdate(gen.Leaf(rng, true), gen.RandomDag(rng, gen.DagOpts{Nodes: rng.Range(1, 3), SmallBits: true}))},
+		}
+		for bi, eb := range exoticBodies {
+			if eb.c.Err() != nil || eb.c.Mask() != 0 {
+				R.HarnessError("exotic body generator: %v mask %d", eb.c.Err(), eb.c.Mask())
+				return
+			}
+			spec := &msgSpec{initMode: 0, bodyRef: true, body: eb.c}
+			genInfo(rng, "ext-in", spec)
+			if c, err := spec.cell(); err == nil {
+				how := []string{"plain", "hasher"}[(i+bi)%2]
+				m, derr, pn := decodeMessage(c, how, true, i%4 >= 2, rng)
+				R.Seen("exotic_body_roots", eb.name)
+				if pn != nil {
+					R.Violation("panic@"+pn.Site+"/decode-message/exotic-body", map[string]any{"panic": pn.Value, "body": eb.name})
+				} else if derr != nil {
+					R.Inconclusive("tongo rejects an external message whose body reference is a " + eb.name)
+				} else {
+					compareMessage(m, c, spec, how, "exotic-body", map[string]any{"case": i, "body": eb.name})
+				}
 			}
 		}
 		// (c) a message of level > 0 (its body holds a pruned branch, as in a record taken from a Merkle
@@ -1742,12 +2294,15 @@ func sectionReal() {
 }
 
 func main() {
+	if mon.IsWorker() {
+		mon.WorkerMain(map[string]func(*mon.Worker){"concurrent": concurrentWorker})
+	}
 	tier := "quick"
 	if len(os.Args) > 1 {
 		tier = os.Args[1]
 	}
 	R = mon.Start("C16", tier)
-	R.Rule = "each case is one decoded message or transaction whose reported hash (Message.Hash(false), Message.Hash(true), Transaction.Hash, root of Transaction.SourceBoc) is compared with the reference hash of the cell it was decoded from (synthetic: the reference-built source cell; real blocks: a cell of the block with the right constructor tag, account and lt) or of the canonical external-in re-encoding built with ref/cell; equivalence-class pairs differ in exactly one part; every record is decoded once with tlb.Unmarshal and once with tlb.NewDecoder() (caching hasher) and the two must agree; non-trivial = a hash actually compared; distinct = distinct (decoder, place, shape, reference hash); stability re-reads and plain-vs-hasher agreement count as evaluations only"
+	R.Rule = "each case is one decoded message or transaction whose reported hash (Message.Hash(false), Message.Hash(true), Transaction.Hash, root of Transaction.SourceBoc) is compared with the reference hash of the cell it was decoded from (synthetic: the reference-built source cell; real blocks: a cell of the block with the right constructor tag, account and lt) or of the canonical external-in re-encoding built with ref/cell; equivalence-class pairs differ in exactly one part; external-in destinations are addr_std and addr_var (anycast only for the equality classes); body roots include library, Merkle-proof and Merkle-update cells; the normalised hash is asked again after the decoded body has been read in place and after a built message got another body / destination; one destination variable receives record after record while value copies of it are kept (hash, normalised hash and SourceBoc of every kept copy); transactions also at the root of their cell, re-decoded through one decoder, and with a pruned branch / library / Merkle proof below them (SourceBoc must carry those); one child process decodes distinct cells from 8 goroutines at once; every record is decoded once with tlb.Unmarshal and once with tlb.NewDecoder() (caching hasher) and the two must agree; non-trivial = a hash actually compared; distinct = distinct (decoder, place, shape, reference hash); stability re-reads and plain-vs-hasher agreement count as evaluations only"
 	R.Assume("reference hasher harness/ref/cell is correct: pinned at start-up by the Merkle proof/update equations in the repository's real data")
 	R.Assume("canonical external-in form is ext_in_msg_info$10 src:addr_none dest import_fee:0, no init, body in a reference (comment in tlb/messages.go; TEP-467); destinations with anycast are not judged (tongo documents that it strips anycast)")
 	R.Assume("a record that tongo fails to decode, or decodes into a different structure than the generator described, is counted as inconclusive here (decoding is C03/C04/C08's subject)")
@@ -1759,10 +2314,13 @@ func main() {
 	R.Extra("model_selfcheck", map[string]int{"merkle_equations": eq, "cells": cells})
 
 	sectionShapes()
+	sectionReuse()
+	sectionTransactions()
 	sectionCarriers()
 	sectionClasses()
 	sectionConstructed()
 	sectionRareExtIn()
+	sectionConcurrent()
 	sectionReal()
 	os.Exit(R.Finish())
 }
